@@ -18,6 +18,8 @@ from fractions import Fraction as F
 import numpy as np
 
 from .. import common
+from . import spillmask
+import os
 from ..fmutil import T, ad, close, err_class, fm, td
 
 MODULES = ["TimeAdapters", "TimeAdaptersLemmas", "Integration", "IntegrationLemmas"]
@@ -355,9 +357,25 @@ def run(ctx, res):
                        "publication time; such requests are not generated for that mode (outside the property)"]
     cases = corpus() + [gen_case(ctx.rng, ctx.n(36, 60)) for _ in range(ctx.n(400, 6000))]
     check_cases(cases, res)
+    # the adapter's buffer on disk (memory limit) with masked payloads whose masks live in the data: same answers as
+    # without a limit (engines/spillmask.py)
+    for n in range(ctx.n(40, 600)):
+        c = spillmask.gen(ctx.rng, ["avg", "sum"])
+        o, spilled = spillmask.check(c, os.path.join(ctx.scratch(), f"sm{n}"))
+        res.case(c, spilled > 0)
+        res.count("part", "spill-masked")
+        if o:
+            res.fail(c, o[0], o[1])
 
 
 def search(ctx, res, divergences, broken):
+    for n in range(150):
+        c = spillmask.gen(ctx.rng, ["avg", "sum"])
+        o, _sp = spillmask.check(c, os.path.join(ctx.scratch(), f"smw{n}"))
+        res.case(c, True)
+        if o:
+            res.fail(c, o[0], o[1])
+            return
     cases = [d["case"] for d in divergences if d.get("case")]
     cases += [gen_case(ctx.rng, 50) for _ in range(ctx.n(2500, 15000))]
     for c in cases:
@@ -371,6 +389,8 @@ def search(ctx, res, divergences, broken):
 
 def shrink(ctx, f):
     case = f["case"]
+    if case.get("part") == "spillmask":
+        return f
     evs = list(case["events"])
     changed = True
     while changed:
@@ -391,6 +411,9 @@ def shrink(ctx, f):
 
 def replay(ctx, rp):
     case = rp.get("input") or (rp.get("diverging_case") or {}).get("case")
+    if case.get("part") == "spillmask":
+        o, _sp = spillmask.check(case, os.path.join(ctx.scratch(), "smreplay"))
+        return {"fails": bool(o), "oracle": o}
     impl = run_impl(case)
     o = oracle(case, impl)
     m = common.lean_batch([model_request(case)])[0]
